@@ -5,7 +5,7 @@ META = {
     "title": "Per-step drive values are the interpolated Pulser samples",
     "technique": "static analysis: provenance of the interpolation (knots, signal key, midpoints), allocation-"
                  "site identity for the name→array→return-position→dataclass-field chain, region taint analysis "
-                 "of the non-negativity clamp",
+                 "of the non-negativity clamp; polynomial identity of the PCHIP evaluation against Σ p_k t^k",
     "design_ref": "DESIGN.md §5 C22, A.7",
     "explanation": "STEP-adapter: each of amp/det/phase is PCHIP1D(arange(T_end), signal[key]) evaluated at "
                    "½(T[:-1]+T[1:]) and stored in the whole column of the array bound to that key; arrays are "
